@@ -80,6 +80,9 @@ class TriggerContext:
                     self.callbacks.append(new_callback)
             except Exception:
                 deep.logging.exception("failed to process result {}", result)
+        # the results refer back to this context (and so to the application's frame and every value we collected);
+        # drop them, so all of that is released when we return and not whenever the garbage collector runs next
+        self.__results = []
 
     @property
     def id(self):
@@ -154,7 +157,8 @@ class TriggerContext:
             # evaluate in the scope of the paused frame: its locals and the globals of the module it runs in
             return eval(expression, getattr(self.__frame, 'f_globals', None), self.__frame.f_locals)
         except BaseException as e:
-            return e
+            # without the traceback, it refers to our own frames (and through them to the application's frame)
+            return e.with_traceback(None)
 
     def attach_result(self, result: ActionResult):
         """
